@@ -282,6 +282,9 @@ func genPrio(engine, prop string, r *simrt.SplitMix) *PrioSc {
 		sc.Class = "saturate"
 	case "C06":
 		sc.Class = pick(r, "normal", "normal", "single", "sparse")
+		if engine == "prio1" && r.Intn(4) == 0 {
+			sc.Class = "dynamic"
+		}
 	case "C07":
 		sc.Class = pick(r, "normal", "withhold", "withhold")
 		if engine == "prio1" && r.Intn(3) == 0 {
@@ -325,6 +328,23 @@ func genPrio(engine, prop string, r *simrt.SplitMix) *PrioSc {
 
 	for try := 0; ; try++ {
 		prios = append([]uint(nil), prioSets[r.Intn(len(prioSets))]...)
+
+		if r.Intn(3) == 0 {
+			// a random set of close values: with Rate and a small H the full set may get a
+			// handler each while some subset does not (accepted by the constructor, "fatal"
+			// by the utils' definition)
+			n := between(r, 2, 5)
+			seen := map[uint]bool{}
+			prios = prios[:0]
+
+			for len(prios) < n {
+				p := uint(between(r, 1, 12))
+				if !seen[p] {
+					seen[p] = true
+					prios = append(prios, p)
+				}
+			}
+		}
 		sc.Divider = pick(r, "fair", "rate", "rate", "custom")
 		n := len(prios)
 		sc.H = pick(r, n, n, n+1, n+2, 2*n, 2*n+1, 6, 7, 11, between(r, n, n+10*scale))
